@@ -569,6 +569,7 @@ def broken_placeholder(proved, dis, mdis=None):
 
 KEY_HCORDER = "C01:holding-cell-add-before-fulfill-reserve-close"
 KEY_DBGOVERDRAWN = "C01:debug-assert-overdrawn-on-concurrent-adds"
+KEY_CLOSEDUST = "C01:coop-close-asymmetric-dust-signature-mismatch"
 KEY_COOP = "C01:coop-close-fee-exceeds-funder-balance"
 KEY_LIMIT = "C01:limit-not-accepted-by-funder-peer"
 
@@ -601,21 +602,15 @@ def classify_known(rec, f):
     coop_panic = f["judge"] == "no-panic" and "value_to_holder >= 0" in f["why"]
     coop_err = f["judge"] == "b:no-error" and "Value to holder below 0" in f["why"]
     if (coop_panic or coop_err) and steps:
-        # (1) the funder's whole-satoshi balance is strictly below its own minimum closing fee
-        est = rec.get("cfg", {}).get("fee", 253)
-        for s in steps:
-            if s["l"].startswith("fee ") and not s.get("skip"):
-                est = int(s["l"].split()[1])
-        est = max(est, 253)
-        spk = [m[1] for s in steps for m in s["em"][0] + s["em"][1] if m[0] == "shutdown"]
-        last = steps[-1] if coop_panic else steps[max(0, f["step"] - 1)]
+        # (1) the funder's whole-satoshi balance is strictly below its OWN minimum closing fee
+        # (ChannelCloseMinimum estimate x closing weight, recomputed from the scripted estimator and the
+        # observed shutdown scripts); nothing else pending
+        k = len(steps) - 1 if coop_panic else max(0, f["step"] - 1)
+        rg = T.closing_ranges(rec, steps, k)
+        last = steps[k]
         d = [x for x in last["d"] if x is not None and x["fund"] == 1]
-        if spk and d and not d[0]["in"] and not d[0]["out"]:
-            lens = (spk + spk)[:2]
-            weight = (4 + 1 + 36 + 1 + 4 + 1 + 4) * 4 + 2 + 1 + 4 + 71 + 2 * 72 + sum((9 + n) * 4 for n in lens)
-            min_fee = est * weight // 1000
-            if d[0]["self"] // 1000 < min_fee:
-                return KEY_COOP
+        if rg is not None and d and not d[0]["in"] and not d[0]["out"] and rg["bal_F"] < rg["F_min"]:
+            return KEY_COOP
     if f["judge"] in ("b:no-error", "b:no-force-close") and ("Remote HTLC add would put them under remote reserve value" in f["why"]
                                                                 or "Remote HTLC add would overdraw remaining funds" in f["why"]):
         # (3) a holding-cell batch [update_add.., update_fulfill.., commitment_signed] whose add is only payable
@@ -645,6 +640,19 @@ def classify_known(rec, f):
                     res = d["hres"] * 1000
                     if (before is None or before[1] < res) and after is not None and after[1] >= res:
                         return KEY_HCORDER
+    if f["judge"] in ("b:no-error", "b:no-force-close") and "Invalid closing tx signature from peer" in f["why"]:
+        # (5) cooperative close between peers with DIFFERENT dust limits, where one closing output lies
+        # between the two limits: the node with the higher limit drops it (BOLT 3: "remove any output below
+        # its own dust_limit_satoshis"), the other keeps it, the signatures never match
+        i = f["step"]
+        rg = T.closing_ranges(rec, steps, i - 1)
+        fees = [m[1] for s in steps[:i + 1] for m in s["em"][0] + s["em"][1] if m[0] == "closing_signed"]
+        if rg is not None and rg["dust"][0] != rg["dust"][1] and fees:
+            lo, hi = min(rg["dust"]), max(rg["dust"])
+            for fee in fees:
+                for v_ in (rg["bal_F"] - fee, rg["bal_N"]):
+                    if lo < v_ <= hi:
+                        return KEY_CLOSEDUST
     if f["judge"] == "no-panic" and "some channel balance has been overdrawn" in f["why"] and "channel_state.rs" in f["why"] and steps:
         # (4) ChannelDetails::from_channel's debug_assert while BOTH sides have HTLC adds the other has not
         # yet acknowledged (concurrent adds whose total fee the funder cannot pay)
